@@ -118,4 +118,9 @@ example : splitAtSection ("# [package.metadata.leptos-i18n]\n" ++ "  [package.me
     some ("# [package.metadata.leptos-i18n]\n  ".toList, " \nx\n".toList) := by decide
 example : whitespaced ("a\nb\n[package.metadata.leptos-i18n]\nd = 1").toList = some "\n\n\nd = 1".toList := by decide
 example : splitAtSection "x = \"[package.metadata.leptos-i18n]\"\n".toList = none := by decide
+/-- where "the rest of Cargo.toml is ignored" ends for a textual search (finding C19-multiline-string, replayed on the
+implementation by the check): a line of a multi-line string that starts with the header is taken for the section -/
+theorem C19_multiline_string_witness :
+    splitAtSection "d = \"\"\"\n[package.metadata.leptos-i18n]\nx\"\"\"\n[package.metadata.leptos-i18n]\ndefault = \"en\"\n".toList =
+      some ("d = \"\"\"\n".toList, "\nx\"\"\"\n[package.metadata.leptos-i18n]\ndefault = \"en\"\n".toList) := by decide
 end I18nVerif.Manifest
